@@ -275,3 +275,167 @@ Proof.
   - unfold below. cbn [snd]. apply Nat.ltb_ge. lia.
   - unfold below. cbn [snd]. apply Nat.ltb_lt. exact R.
 Qed.
+
+(* ---------- the kill cascade: fuel above the rank of the killed key suffices ---------- *)
+(* the objects of w that are gone in w' were in region r and rank at most b *)
+Definition gone_below (ht : N -> N -> nat) (r : N) (b : nat) (w w' : world) : Prop :=
+  forall f o, get_obj w f = Some o -> get_obj w' f = None -> o_region o = r /\ (ht r (o_lid o) <= b)%nat.
+
+Definition KOK (killf : world -> N -> option world) (r : N) (n : nat) (ht : N -> N -> nat) : Prop :=
+  forall w c D, Idx w -> TreeG w (odet no_ovr D) None -> Rk ht w -> get_rs w r <> None -> (ht r c < n)%nat ->
+    exists w', killf w c = Some w' /\ gone_below ht r (ht r c) w w'.
+Definition KR (killf : world -> N -> option world) : Prop :=
+  forall w c w', Idx w -> killf w c = Some w' -> Idx w' /\ same_regs w w'.
+
+Lemma gone_below_seq : forall ht r b w w1 w', sub w w1 -> gone_below ht r b w w1 -> gone_below ht r b w1 w' ->
+  gone_below ht r b w w'.
+Proof.
+  intros ht r b w w1 w' [S1 _] G1 G2 f o Eo En. destruct (get_obj w1 f) as [o1|] eqn:E1.
+  - destruct (S1 _ _ E1) as (o0 & Eo0 & P & _). rewrite Eo in Eo0. inversion Eo0; subst o0.
+    unfold pcore in P. injection P as P1 P2 P3 P4. destruct (G2 _ _ E1 En) as [Hr Hb]. rewrite <- P1, <- P3. auto.
+  - exact (G1 _ _ Eo E1).
+Qed.
+
+Lemma gone_below_le : forall ht r b b' w w', (b <= b')%nat -> gone_below ht r b w w' -> gone_below ht r b' w w'.
+Proof. intros ht r b b' w w' H G f o E1 E2. destruct (G _ _ E1 E2) as [A B]. split; [exact A|lia]. Qed.
+
+Lemma kill_children_ok : forall killf r n ht b, KI killf r -> KS killf -> KR killf -> KOK killf r n ht ->
+  forall ids w D, Idx w -> TreeG w (odet no_ovr D) None -> Rk ht w -> get_rs w r <> None ->
+  (forall c, In c ids -> (ht r c < n)%nat /\ (ht r c <= b)%nat) ->
+  exists w', kill_children killf r ids w = Some w' /\ gone_below ht r b w w'.
+Proof.
+  intros killf r n ht b HKI HKS HKR HOK. induction ids as [|c t IH]; intros w D I T R Hrs Hn; simpl.
+  - exists w. split; [reflexivity|]. intros f o E1 E2. congruence.
+  - assert (Ht : forall c0, In c0 t -> (ht r c0 < n)%nat /\ (ht r c0 <= b)%nat) by (intros c0 Ic0; apply Hn; right; exact Ic0).
+    assert (STEP : exists w', (w1 <- killf w c ;; kill_children killf r t w1) = Some w' /\ gone_below ht r b w w').
+    { destruct (Hn c (or_introl eq_refl)) as [Hc1 Hc2].
+      destruct (HOK w c D I T R Hrs Hc1) as (w1 & E & G1). rewrite E. cbn [bind].
+      destruct (HKI _ _ _ _ I T E) as [T1 _]. destruct (HKS _ _ _ I E) as [I1 S1]. destruct (HKR _ _ _ I E) as [_ SR1].
+      destruct (IH w1 D I1 T1 (Rk_sub _ _ _ S1 R) (SR1 _ Hrs) Ht) as (w' & E' & G2).
+      exists w'. split; [exact E'|]. eapply gone_below_seq; [exact S1| |exact G2]. eapply gone_below_le; [exact Hc2|exact G1]. }
+    destruct (lookup_local w r c) as [co|]; [|exact STEP].
+    destruct (o_av co); [|exact STEP]. apply (IH w D I T R Hrs Ht).
+Qed.
+
+Lemma kill_ok : forall ht n r, KOK (fun w c => kill n w r c) r n ht.
+Proof.
+  intros ht. induction n as [|n IHn]; intros r w l D I T R Hrs Hn; [lia|]. simpl.
+  assert (HKS : KS (fun w c => kill n w r c)) by (intros w0 c w0' I0 H0; eapply kill_sub; eauto).
+  assert (HKR : KR (fun w c => kill n w r c)) by (intros w0 c w0' I0 H0; eapply kill_same_regs; eauto).
+  pose proof (kill_KI n r) as HKI. specialize (IHn r).
+  destruct (get_rs w r) as [rs|] eqn:E; [|congruence]. cbn [bind].
+  set (rs1 := with_missing rs (sdel l (r_missing rs))) in *. set (w1 := set_rs w r rs1) in *.
+  assert (F1 : frame w w1) by (eapply frame_set_rs; [exact E|reflexivity]).
+  assert (TF1 : tframe w w1) by (eapply tframe_set_rs; [exact E|reflexivity]).
+  pose proof (frame_Idx _ _ F1 I) as I1. pose proof (tframe_TreeG _ _ _ _ TF1 T) as T1.
+  assert (Ers1 : get_rs w1 r = Some rs1) by (unfold w1; rewrite get_rs_set_rs, N.eqb_refl; reflexivity).
+  assert (R1 : Rk ht w1) by exact R.
+  assert (Hrs1 : get_rs w1 r <> None) by congruence.
+  set (O := odet no_ovr D) in *.
+  destruct (lookup_local w1 r l) as [o|] eqn:El.
+  - (* a tracked object *)
+    destruct (lookup_local_some _ _ _ _ I1 El) as (Eo & Hl & Hr).
+    assert (RANK : forall c, In c (rev (map fst (o_children o))) -> (ht r c < n)%nat /\ (ht r c <= ht r l - 1)%nat).
+    { intros c Ic. apply in_rev in Ic. apply in_map_iff in Ic. destruct Ic as ([c' cf] & Hc' & Ic). cbn in Hc'; subst c'.
+      destruct (tC1 _ _ _ T1 _ _ _ _ Eo Ic) as (co & rs0 & A1 & A2 & A3 & A4 & _).
+      apply bk_odet in A4. destruct A4 as [_ [A4 A4']]. unfold epar, no_ovr in A4. inversion A4 as [A4p].
+      pose proof (R1 _ _ A1 ltac:(rewrite A4p; exact A4')) as Rc. rewrite A3, Hr, A2, A4p, Hl in Rc. lia. }
+    destruct (kill_children_ok _ r n ht (ht r l - 1)%nat HKI HKS HKR IHn _ w1 D I1 T1 R1 Hrs1 RANK) as (w2 & E0 & G2).
+    rewrite E0. cbn [bind].
+    destruct (kill_children_KI _ _ HKI HKS _ _ _ D I1 T1 E0) as (T2 & I2 & S2 & _).
+    assert (Eo' : exists o', get_obj w2 (o_full o) = Some o').
+    { destruct (get_obj w2 (o_full o)) as [o'|] eqn:Eo'; [eauto|]. exfalso.
+      destruct (G2 _ _ Eo Eo') as [_ Hb]. rewrite Hl in Hb.
+      destruct (o_children o) as [|[c cf] tl] eqn:Ech.
+      - simpl in E0. inversion E0; subst w2. congruence.
+      - destruct (RANK c) as [_ Hc]; [apply in_rev; rewrite rev_involutive; left; reflexivity|]. lia. }
+    destruct Eo' as (o' & Eo').
+    destruct S2 as [S21 S22]. destruct (S21 _ _ Eo') as (o0 & Eo0 & P0 & _). rewrite Eo in Eo0. inversion Eo0; subst o0.
+    assert (Hr' : o_region o' = r) by (unfold pcore in P0; congruence).
+    destruct (untrack_object w2 r (o_full o)) as [w3|] eqn:E1; cbn [bind].
+    2:{ exfalso. eapply (untrack_object_ok w2 O r (o_full o) o'); eauto. apply odet_form. }
+    eexists. split; [reflexivity|].
+    destruct (untrack_IdxX _ _ _ _ _ I2 Eo' Hr' E1) as (_ & _ & FO & _).
+    intros f a Ea En. change (get_obj w f) with (get_obj w1 f) in Ea.
+    destruct (get_obj w2 f) as [a2|] eqn:Ea2.
+    + rewrite get_obj_del_obj in En. destruct (f =? o_full o) eqn:Q.
+      * apply N.eqb_eq in Q. subst f. rewrite Eo in Ea. inversion Ea; subst a. split; [exact Hr|]. rewrite Hl. lia.
+      * specialize (FO f). rewrite Ea2, En in FO. discriminate.
+    + destruct (G2 _ _ Ea Ea2) as [Gr Gb]. split; [exact Gr|]. lia.
+  - (* an unknown local id: its orphans die, except avatars *)
+    assert (LL : lookup_local w1 r l = lookup_local w r l).
+    { unfold lookup_local. rewrite Ers1, E. reflexivity. }
+    assert (Hnone : aget l (r_local rs1) = None).
+    { unfold lookup_local in El. rewrite Ers1 in El. destruct (aget l (r_local rs1)) as [f|] eqn:Ef; [|reflexivity].
+      destruct I1 as (_ & A1 & _). destruct (A1 _ _ _ _ Ers1 Ef) as (a & Ea & _). congruence. }
+    set (w2 := cancel_futures w1 r l) in *.
+    assert (T2 : TreeG w2 O None) by (eapply TreeG_wext; [| |exact T1]; reflexivity).
+    assert (I2 : Idx w2) by (eapply frame_Idx; [apply frame_set_futs|exact I1]).
+    pose proof (Idx_Base _ I2) as B2. pose proof B2 as [K2 W22].
+    change (get_rs w2 r) with (get_rs w1 r). rewrite Ers1. cbn [bind].
+    assert (E0 : get_rs w2 r = Some rs1) by exact Ers1.
+    destruct (collect_orphans rs1 l) as [ch rs3] eqn:Ec.
+    destruct (collect_spec _ _ _ _ Ec) as (CL & CO & CLs).
+    pose proof (TreeG_collect_unknown _ _ _ _ _ _ _ B2 T2 E0 Hnone Ec) as TC.
+    set (fs := fulls rs1 ch) in *.
+    rewrite retrack_eq. set (avs := filter (isav w2 r) ch) in *.
+    set (nvs := filter (fun c => negb (isav w2 r c)) ch).
+    assert (MEM : forall c, In c ch -> exists cf co, aget c (r_local rs1) = Some cf /\ get_obj w2 cf = Some co /\ o_parent co = l /\ l <> 0 /\ mem cf D = false).
+    { intros c Ic. destruct (aget l (r_orphans rs1)) as [ls0|] eqn:El0; [|subst ch; destruct Ic]. subst ch.
+      destruct (tO1 _ _ _ T2 _ _ _ _ _ E0 El0 Ic) as (A1 & _ & cf & co & A3 & A4 & A5).
+      exists cf, co. split; [exact A3|]. split; [exact A4|]. destruct A5 as [A5 _]. unfold epar, O, odet, no_ovr in A5. rewrite (K2 _ _ A4) in A5.
+      destruct (mem cf D) eqn:MD; [discriminate|]. injection A5 as Hp. split; [exact Hp|]. split; [exact A1|reflexivity]. }
+    assert (NDch : NoDup ch).
+    { destruct (aget l (r_orphans rs1)) as [ls0|] eqn:El0; [|subst ch; constructor]. subst ch. eapply (tO3 _ _ _ T2); eauto. }
+    set (W := set_rs w2 r rs3) in *.
+    assert (BW : Base W) by (eapply pframe_Base; [eapply pframe_set_rs; [exact E0|exact CL]|exact B2]).
+    assert (ErsW : get_rs W r = Some rs3) by (unfold W; rewrite get_rs_set_rs, N.eqb_refl; reflexivity).
+    assert (TR : TreeG (set_rs W r (orphan_children rs3 avs l)) (oatt (odet O fs) (fulls rs3 avs) l) None).
+    { apply orphan_children_TreeG; auto.
+      - apply NoDup_filter. exact NDch.
+      - intros Hne. destruct avs as [|c t] eqn:Ea; [congruence|].
+        assert (Ic : In c ch). { assert (In c (c :: t)) by (left; reflexivity). rewrite <- Ea in H. apply filter_In in H. tauto. }
+        destruct (MEM c Ic) as (_ & _ & _ & _ & _ & Hl0 & _). exact Hl0.
+      - left. rewrite CL. exact Hnone.
+      - intros c Ic. apply filter_In in Ic. destruct Ic as [Ic _]. destruct (MEM c Ic) as (cf & co & Ec' & Eco & _).
+        exists cf, co. rewrite CL. split; [exact Ec'|]. split; [exact Eco|]. unfold odet at 1.
+        assert (M : mem cf fs = true) by (apply mem_In; apply fulls_In; eauto). rewrite M. reflexivity. }
+    apply set_rs_twice in TR. set (w3 := set_rs w2 r (orphan_children rs3 avs l)) in *.
+    rewrite (fulls_local rs1 rs3 avs CL) in TR.
+    assert (GO3 : forall g, get_obj w3 g = get_obj w2 g) by reflexivity.
+    assert (T3 : TreeG w3 (odet no_ovr (D ++ fulls rs1 nvs)) None).
+    { eapply TreeG_bk_equiv; [|exact TR]. intros g a Eg p. rewrite GO3 in Eg. pose proof (K2 _ _ Eg) as Kg.
+      assert (R1' : odet O fs g = if mem g fs then Some None else (if mem g D then Some None else None)) by reflexivity.
+      assert (R2 : odet no_ovr (D ++ fulls rs1 nvs) g = if mem g D || mem g (fulls rs1 nvs) then Some None else None)
+        by (unfold odet, no_ovr; rewrite mem_app; reflexivity).
+      assert (EQ : match oatt (odet O fs) (fulls rs1 avs) l g with Some x => x | None => Some (o_parent a) end =
+                   match odet no_ovr (D ++ fulls rs1 nvs) g with Some x => x | None => Some (o_parent a) end).
+      { unfold oatt. rewrite R1', R2. destruct (mem g (fulls rs1 avs)) eqn:Ma.
+        - apply mem_In in Ma. apply fulls_In in Ma. destruct Ma as (c & Ic & Ec'). apply filter_In in Ic. destruct Ic as [Ic Hv].
+          destruct (MEM c Ic) as (cf & co & Ec'' & Eco & Hp & Hl0 & HD). rewrite Ec' in Ec''. inversion Ec''; subst cf.
+          rewrite Eg in Eco. inversion Eco; subst co. rewrite HD. cbn [orb].
+          assert (Mn : mem g (fulls rs1 nvs) = false).
+          { apply mem_false. intro Hi. apply fulls_In in Hi. destruct Hi as (c' & Ic' & Ec3). apply filter_In in Ic'. destruct Ic' as [_ Hv'].
+            destruct (W22 _ _ _ _ E0 Ec') as (a1 & Ea1 & Hl1 & _). destruct (W22 _ _ _ _ E0 Ec3) as (a2 & Ea2 & Hl2 & _).
+            assert (Hcc : c = c') by congruence. rewrite <- Hcc in Hv'. rewrite Hv in Hv'. discriminate. }
+          rewrite Mn. congruence.
+        - destruct (mem g fs) eqn:Mf.
+          + apply mem_In in Mf. apply (fulls_partition rs1 (isav w2 r) ch g) in Mf. destruct Mf as [Mf|Mf].
+            * apply mem_In in Mf. fold avs in Mf. congruence.
+            * apply mem_In in Mf. fold nvs in Mf. rewrite Mf, orb_true_r. reflexivity.
+          + assert (Mn : mem g (fulls rs1 nvs) = false).
+            { apply mem_false. intro Hi. apply mem_false in Mf. apply Mf. apply (fulls_partition rs1 (isav w2 r) ch g). right. exact Hi. }
+            rewrite Mn, orb_false_r. reflexivity. }
+      unfold bk, epar. rewrite Kg, EQ. reflexivity. }
+    assert (I3 : Idx w3).
+    { eapply frame_Idx; [|exact I2]. eapply frame_set_rs; [exact E0|]. rewrite ridx_orphan_children.
+      change rs3 with (snd (ch, rs3)). rewrite <- Ec. apply ridx_collect. }
+    assert (R3 : Rk ht w3) by exact R.
+    assert (Hrs3 : get_rs w3 r <> None) by (unfold w3; rewrite get_rs_set_rs, N.eqb_refl; discriminate).
+    assert (RANK : forall c, In c (rev ch) -> (ht r c < n)%nat /\ (ht r c <= ht r l)%nat).
+    { intros c Ic. apply in_rev in Ic. destruct (MEM c Ic) as (cf & co & Ec' & Eco & Hp & Hl0 & _).
+      destruct (W22 _ _ _ _ E0 Ec') as (co' & Eco' & Hlc & Hrc). rewrite Eco in Eco'. inversion Eco'; subst co'.
+      pose proof (R _ _ Eco ltac:(rewrite Hp; exact Hl0)) as Rc. rewrite Hrc, Hlc, Hp in Rc. lia. }
+    destruct (kill_children_ok _ r n ht (ht r l) HKI HKS HKR IHn _ w3 _ I3 T3 R3 Hrs3 RANK) as (w' & E' & G').
+    exists w'. split; [exact E'|]. exact G'.
+Qed.
